@@ -543,7 +543,7 @@ func TestC19(t *testing.T) {
 	})
 
 	// (b)+(c) generated patterns and query sequences on one matcher
-	rapidRun(t, env, "generated", env.Pick(60000, 3000000), func(rt *rapid.T) {
+	rapidRun(t, env, "generated", env.Pick(800000, 20000000), func(rt *rapid.T) {
 		m := genC19Meta().Draw(rt, "case")
 		rec.Eval()
 		rec.Class("api:" + m.API)
